@@ -755,6 +755,23 @@ func refreshRing(r *ringDescriber) error {
 		}
 	}
 
+	// ... and so do hosts that changed their address, under the old one: another host may
+	// move to that address in the same refresh (and would be taken for a duplicate, then
+	// be removed with the entry of the host that gave the address up)
+	for _, h := range hosts {
+		if r.session.cfg.filterHost(h) {
+			continue
+		}
+		existing, ok := prevHosts[h.HostID()]
+		if !ok {
+			continue
+		}
+		if !h.connectAddress.Equal(existing.connectAddress) || !h.nodeToNodeAddress().Equal(existing.nodeToNodeAddress()) {
+			r.session.removeHost(existing)
+			delete(prevHosts, h.HostID())
+		}
+	}
+
 	for _, h := range hosts {
 		if r.session.cfg.filterHost(h) {
 			continue
